@@ -6,8 +6,8 @@ import common
 import harness
 import pgncorr
 
-PROP_FILES = ["N2k/Props/C09.lean"] + [f"N2k/Tables/T{k:02d}.lean" for k in range(16)] + ["N2k/Tables/TLk2.lean"]
-LEAN_TARGETS = ["N2k.Props.C09", "N2k.Tables.TLk2"]
+PROP_FILES = ["N2k/Props/C09.lean", "N2k/Props/C09Msg.lean"] + [f"N2k/Tables/T{k:02d}.lean" for k in range(16)] + ["N2k/Tables/TLk2.lean"]
+LEAN_TARGETS = ["N2k.Props.C09", "N2k.Props.C09Msg", "N2k.Tables.TLk2"]
 SUITE_NAMES = ["gen-encoders-roundtrip", "gen-encoders-values", "codec-encode-number", "encoder-shared-instance"]
 ASSUMPTIONS = ["the full property is false of this code base for non-NUMBER kinds (masked, not rejected) — recorded as known findings keyed by field kind; the theorems carry the explicit `fits` hypothesis"]
 TRUSTED_EXTRA = ["C09: T1 translator; hand models Codec/Interp tied by T3 over the value classes of the quantifier for every encodable definition"]
